@@ -16,6 +16,35 @@ from . import terms as T
 from .terms import num, fmt, mk_cmp, mk_not, truth, ZERO, NONE, TRUE, FALSE
 
 
+def _split_cm(body):
+    """The body of a @contextmanager generator around its single yield -> (statements before, yielded expression or None, target of `x = yield`,
+    statements after inside the try, finally-block, statements after the try, has handlers); None when the yield sits elsewhere (a loop, a nested with, twice)."""
+    def ystmt(s):
+        if isinstance(s, ast.Expr) and isinstance(s.value, ast.Yield):
+            return s.value.value, None, True
+        if isinstance(s, ast.Assign) and isinstance(s.value, ast.Yield) and len(s.targets) == 1:
+            return s.value.value, s.targets[0], True
+        return None, None, False
+
+    def has_yield(s):
+        return any(isinstance(n, (ast.Yield, ast.YieldFrom)) for n in ast.walk(s))
+    body = list(body)
+    for i, s in enumerate(body):
+        v, t, ok = ystmt(s)
+        if ok:
+            if any(has_yield(r) for r in body[i + 1:]):
+                return None
+            return body[:i], v, t, body[i + 1:], [], [], False
+        if isinstance(s, ast.Try) and any(has_yield(r) for r in s.body):
+            if not s.body or not ystmt(s.body[0])[2] or any(has_yield(r) for r in s.body[1:] + s.orelse + s.finalbody + body[i + 1:]) or any(has_yield(h) for h in s.handlers):
+                return None
+            v, t, _ = ystmt(s.body[0])
+            return body[:i], v, t, s.body[1:] + s.orelse, s.finalbody, body[i + 1:], bool(s.handlers)
+        if has_yield(s):
+            return None
+    return None
+
+
 class Undecided(Exception):
     """The region contains a construct outside the modelled subset."""
 
@@ -334,6 +363,7 @@ class SymEx:
         self.in_comp = 0
         self._gcache = {}
         self._defs_in_frame = {}
+        self._body_override = {}
         self.try_lookup = 0
         self._fresh_self = set()
         self.try_value = 0
@@ -400,7 +430,8 @@ class SymEx:
         self.frames.append(fn)
         self.dyn[len(self.frames)] = dyn
         try:
-            res = self.block(fn.body(), st)
+            over = self._body_override.pop(fn.qn, None)
+            res = self.block(over if over is not None else fn.body(), st)
         finally:
             made = self._defs_in_frame.pop(len(self.frames), [])
             self.dyn.pop(len(self.frames), None)
@@ -418,7 +449,7 @@ class SymEx:
             else:
                 p = Path(s, 'fall', NONE)
             p.local_env = s.env
-            s2 = s
+            p.cm_frame = (s.env, dyn) if over is not None else None
             out.append(p)
         for p in out:
             p.outer_env = outer_env
@@ -572,6 +603,11 @@ class SymEx:
                 if hd is not None and hd[1] not in ('?', None):
                     # a bare `raise` inside the handler of a modelled exception raises that exception again
                     owner = self.fn.cls.name if self.fn.cls is not None else (getattr(self, '_deco_owner', None) or [None])[-1]
+                    if len(hd) > 2 and hd[2] is not None:
+                        # ... and it is the SAME exception: raised where it was first raised, by whom it was first raised
+                        x = st.ev(Ev('raise', exc=hd[1], site=hd[2][2], fn=hd[2][3], args=()))
+                        x.exc = hd[2]
+                        return [(x, None)]
                     x = st.ev(Ev('raise', exc=hd[1], site=self.site(s), fn=self.fn.qn, args=()))
                     x.exc = ('raise', hd[1], self.site(s), self.fn.qn, owner)
                     return [(x, None)]
@@ -643,39 +679,7 @@ class SymEx:
         if isinstance(s, ast.Try):
             return self.try_(s, st)
         if isinstance(s, ast.With):
-            x = st
-            cur = [x]
-            for item in s.items:
-                nxt = []
-                for c in cur:
-                    for y, v in self.ev(item.context_expr, c):
-                        if isinstance(item.context_expr, ast.Call) and y.exc is None:
-                            # with cm(...) as x, cm a @contextmanager generator of the package (read through above): x is what it yields
-                            tg = self._resolve_dyn(item.context_expr, c)
-                            if len(tg) == 1 and any(ast.unparse(d_.func if isinstance(d_, ast.Call) else d_).split('.')[-1] == 'contextmanager' for d_ in tg[0].node.decorator_list):
-                                new_ = y.events[len(c.events):]
-                                if not any(e_.kind == 'enter' and e_.d.get('fn') == tg[0].qn for e_ in new_):
-                                    # not read through under this policy: the manager stays an opaque call, its body does not run here
-                                    if item.optional_vars is not None:
-                                        y = self.assign(item.optional_vars, v, y, s)
-                                    nxt.append(y)
-                                    continue
-                                ys = [e_ for e_ in new_ if e_.kind == 'yield']
-                                after = False
-                                for st_ in ast.walk(tg[0].node):
-                                    if isinstance(st_, (ast.Try,)) and (st_.finalbody or st_.handlers):
-                                        after = True
-                                if len(ys) != 1:
-                                    raise Undecided('context manager %s does not yield exactly once at %s' % (tg[0].qn, self.site(s)))
-                                v = ys[0].value
-                        if item.optional_vars is not None and y.exc is None:
-                            y = self.assign(item.optional_vars, v, y, s)
-                        nxt.append(y)
-                cur = nxt
-            out = []
-            for c in cur:
-                out.extend(self.block(s.body, c))
-            return out
+            return self.with_(s, st, 0)
         if isinstance(s, ast.Break):
             return [(st, ('break',))]
         if isinstance(s, ast.Continue):
@@ -701,6 +705,106 @@ class SymEx:
         if isinstance(s, ast.Match):
             return self.block(_match_to_if(s, self.site(s)), st)
         raise Undecided('statement %s at %s' % (type(s).__name__, self.site(s)))
+
+    def with_(self, s, st, idx):
+        """`with` item idx of s.  A @contextmanager generator of the package (read through under the policy) runs in three steps, in this order:
+        its statements up to the yield, the block, its statements after the yield (a `finally` also when the block raised)."""
+        item = s.items[idx]
+
+        def inner(y):
+            return self.with_(s, y, idx + 1) if idx + 1 < len(s.items) else self.block(s.body, y)
+        tg = self._resolve_dyn(item.context_expr, st) if isinstance(item.context_expr, ast.Call) and st.exc is None else []
+        is_cm = len(tg) == 1 and any(ast.unparse(d_.func if isinstance(d_, ast.Call) else d_).split('.')[-1] == 'contextmanager' for d_ in tg[0].node.decorator_list)
+        if not is_cm:
+            out = []
+            for y, v in self.ev(item.context_expr, st):
+                if item.optional_vars is not None and y.exc is None:
+                    y = self.assign(item.optional_vars, v, y, s)
+                out.extend(inner(y) if y.exc is None else [(y, None)])
+            return out
+        g = tg[0]
+        split = _split_cm(g.body())
+        if split is None:
+            raise Undecided('context manager %s: the place of its yield is not one this analysis follows (at %s)' % (g.qn, self.site(s)))
+        prefix, yv, ytarget, suffix, final, after, handlers = split
+        self._body_override[g.qn] = list(prefix) + [ast.copy_location(ast.Return(value=yv), prefix[-1] if prefix else g.node)]
+        try:
+            entered = self.ev(item.context_expr, st)
+        finally:
+            used = g.qn not in self._body_override
+            self._body_override.pop(g.qn, None)
+        out = []
+        for y, v in entered:
+            if y.exc is not None:
+                out.append((y, None))
+                continue
+            frame = y.env.pop('@cm', None) if used else None
+            if frame is None:
+                # not read through under this policy: the manager stays an opaque call, its body does not run here
+                if item.optional_vars is not None:
+                    y = self.assign(item.optional_vars, v, y, s)
+                out.extend(inner(y))
+                continue
+            genv, gdyn = frame
+            y = y.ev(Ev('yield', value=v, site=g.site()))
+            if item.optional_vars is not None:
+                y = self.assign(item.optional_vars, v, y, s)
+            for z, oc in inner(y):
+                if isinstance(item.optional_vars, ast.Name) and v[0] == 'new' and z.env.get(item.optional_vars.id) is not v \
+                        and z.env.get(item.optional_vars.id, ZERO)[0] == 'new' and z.env[item.optional_vars.id][1] == v[1]:
+                    # the block updated the record it was handed: the generator's own name for it denotes the same object
+                    gz = {k_: (z.env[item.optional_vars.id] if v_ is v else v_) for k_, v_ in genv.items()}
+                else:
+                    gz = genv
+                if z.exc is not None:
+                    if handlers:
+                        raise Undecided('context manager %s handles exceptions of the block at %s' % (g.qn, self.site(s)))
+                    if not final:
+                        out.append((z, oc))
+                        continue
+                    e_ = z.exc
+                    for w, oc2 in self._in_frame(g, gdyn, gz, final, z.copy(exc=None)):
+                        if w.exc is None and (oc2 is None or oc2[0] != 'return'):
+                            w.exc = e_
+                        out.append((w, oc))
+                    continue
+                tail = ([ast.copy_location(ast.Assign(targets=[ytarget], value=ast.Constant(value=None)), ytarget)] if ytarget is not None else []) + list(suffix)
+                # (statements after the try run only when nothing in it returned)
+                res = self._in_frame(g, gdyn, gz, tail, z) if tail else [(z, None)]
+                for w, oc2 in res:
+                    if final and w.exc is None:
+                        genv2 = w.env.pop('@cmenv', gz)
+                        res2 = self._in_frame(g, gdyn, genv2, list(final) + (list(after) if oc2 is None else []), w)
+                    elif w.exc is None and oc2 is None and after:
+                        genv2 = w.env.pop('@cmenv', gz)
+                        res2 = self._in_frame(g, gdyn, genv2, list(after), w)
+                    else:
+                        res2 = [(w, None)]
+                    for u, _ in res2:
+                        u.env.pop('@cmenv', None)
+                        out.append((u, oc))
+        return out
+
+    def _in_frame(self, fn, dyn, env, stmts, st):
+        """Run statements of `fn` (a generator resumed after its yield) on st with fn's own variables; the caller's variables come back afterwards."""
+        saved = st.env
+        x = st.ev(Ev('enter', fn=fn.qn, site=fn.site(), caller=self.fn.qn))
+        x.env = dict(env)
+        self.frames.append(fn)
+        self.dyn[len(self.frames)] = dyn
+        try:
+            res = self.block(stmts, x)
+        finally:
+            self.dyn.pop(len(self.frames), None)
+            self.frames.pop()
+        out = []
+        for y, oc in res:
+            genv = y.env
+            y.env = dict(saved)
+            y.env['@cmenv'] = genv
+            y.events = y.events + (Ev('exit', fn=fn.qn, outcome='raise' if y.exc is not None else 'fall'),)
+            out.append((y, oc))
+        return out
 
     def is_print_guard(self, s):
         if not self.skip_print_guards or s.orelse:
@@ -1221,7 +1325,7 @@ class SymEx:
                         y = x.copy(exc=None)
                         if h.name:
                             y.env[h.name] = ('exc', exc_cls)
-                        y.env['@handling'] = ('exc', exc_cls)
+                        y.env['@handling'] = ('exc', exc_cls, x.exc if x.exc[0] == 'raise' and len(x.exc) > 3 else None)
                         out.extend(self.block(h.body, y))
                         handled = True
                         break
@@ -1484,7 +1588,7 @@ class SymEx:
                     # nothing is in an empty dict
                     self._modelled_lookups = getattr(self, '_modelled_lookups', 0) + 1
                     z = x.ev(Ev('raise', exc='KeyError', site=self.site(e), fn=self.fn.qn, args=(i,)))
-                    z.exc = ('raise', 'KeyError', self.site(e), self.fn.qn)
+                    z.exc = ('raise', 'KeyError', self.site(e), self.fn.qn, self.fn.cls.name if self.fn.cls is not None else None, 'lookup-miss')
                     out.append((z, ZERO))
                 elif x.exc is None and b[0] == 'dict' and isinstance(e.ctx, ast.Load) and i[0] not in ('str', 'num', 'const', 'slice') and _const_keyed(b):
                     out.extend(self.dict_lookup(b, i, x, e, None))
@@ -1497,7 +1601,7 @@ class SymEx:
                             out.append((y, self.subscript(b, i, y)))
                         else:
                             z = y.ev(Ev('raise', exc='KeyError', site=self.site(e), fn=self.fn.qn, args=(i,)))
-                            z.exc = ('raise', 'KeyError', self.site(e), self.fn.qn)
+                            z.exc = ('raise', 'KeyError', self.site(e), self.fn.qn, self.fn.cls.name if self.fn.cls is not None else None, 'lookup-miss')
                             out.append((z, ZERO))
                 else:
                     out.append((x, self.subscript(b, i, x)))
@@ -2146,6 +2250,8 @@ class SymEx:
         for p in paths:
             s = p.state.copy()
             s.env = dict(saved_env)
+            if getattr(p, 'cm_frame', None) is not None:
+                s.env['@cm'] = p.cm_frame
             s.events = s.events + (Ev('exit', fn=callee.qn, outcome=p.outcome),)
             out.append((s, p.value if p.value is not None else NONE))
         return out
@@ -2317,6 +2423,35 @@ class SymEx:
             if em is not None and not em.is_property and not self.suppress:
                 bound = self.bind(em, args, kwargs)
                 return self.inline(em, bound, recv, st, e)
+        if isinstance(f, ast.Attribute) and isinstance(f.value, ast.Name) and st.env.get(f.value.id) is recv and recv is not None and recv[0] == 'new' \
+                and not recv[1].startswith('enum:') and not self.suppress and not self.in_comp:
+            # rec.method(...) on a record built on this path and held in a local, the method assigning fields of the record: records are values here,
+            # so the call is run on a fresh object with the record's fields and every local bound to THIS record afterwards denotes the updated one
+            rc = self.M.cls(recv[1])
+            rm = rc.lookup(f.attr) if rc is not None else None
+            if rm is not None and not rm.is_property and not rm.is_static and _writes_self(rm) and not any(fr.qn == rm.qn for fr in self.frames):
+                obj = ('obj', rc.name, next(self.uid))
+                y0 = st.copy()
+                for k_, v_ in recv[2]:
+                    y0.heap[('attr', obj, k_)] = v_
+                self._fresh_self.add(obj)
+                try:
+                    res = self.inline(rm, self.bind(rm, args, kwargs), obj, y0, e)
+                finally:
+                    self._fresh_self.discard(obj)
+                out = []
+                for s_, rv in res:
+                    fields = []
+                    for k_ in list(s_.heap):
+                        if k_[0] == 'attr' and k_[1] == obj:
+                            fields.append((k_[2], s_.heap.pop(k_)))
+                    newt = ('new', rc.name, tuple(sorted(fields)))
+                    s_.events = tuple(e_ for e_ in s_.events if not (e_.kind == 'write' and e_.loc[0] == 'attr' and e_.loc[1] == obj))
+                    s_.env = {k_: (newt if v_ is recv else (T.replace(v_, lambda t: newt if t == obj else None) if _mentions(v_, obj) else v_)) for k_, v_ in s_.env.items()}
+                    if _mentions(rv, obj):
+                        rv = T.replace(rv, lambda t: newt if t == obj else None)
+                    out.append((s_, rv))
+                return out
         if isinstance(f, ast.Attribute) and isinstance(f.value, ast.Name) and f.value.id in ('self', 'cls') and fn.cls is not None:
             # NAME = functools.partialmethod(method, *bound) in the class body: self.NAME(x) is self.method(*bound, x)
             holder = self.dyn.get(len(self.frames)) or fn.cls
